@@ -15,12 +15,16 @@ VALUE_LISTS = [[0], [1, 0], [0, 1, 2]]
 KEYS = ['a', 'b', 'c']
 
 
-def sub_grids():
+def sub_grids(orders=False):
     out = [{}]
     for k in range(1, 4):
         for keys in itertools.combinations(KEYS, k):
             for vals in itertools.product(VALUE_LISTS, repeat=k):
                 out.append(dict(zip(keys, vals)))
+                if orders:
+                    # every insertion order of the keys (iteration sorts them, indexing must agree)
+                    for perm in list(itertools.permutations(range(k)))[1:]:
+                        out.append({keys[i]: vals[i] for i in perm})
     return out
 
 
@@ -70,7 +74,7 @@ def check_grid(grid, fail):
 
 def run_grids(rep, pairs):
     subs = sub_grids()
-    grids = list(subs) + [[g] for g in subs[:8]]
+    grids = list(sub_grids(orders=True)) + [[g] for g in subs[:8]]
     if pairs:
         grids += [[a, b] for a in subs for b in subs]
     else:
@@ -96,13 +100,14 @@ def run_grids(rep, pairs):
 SCORES = [-1, 0, 1, 2]
 
 
-def one_table(G, T, table, mm, order=None, mode='serial'):
+def one_table(G, T, table, mm, order=None, mode='serial', lazy=False):
     """one real execute() + resolve(); returns list of (what, detail)"""
     keys = [(('k', i),) for i in range(G)]
     so.reset(table={k: list(table[i * T:(i + 1) * T]) for i, k in enumerate(keys)})
     out = []
     ht = HyperTuner(so.ScriptOptA(), {'k': list(range(G))})
     pools.PLAN['order'] = order
+    pools.PLAN['lazy'] = lazy
     try:
         with contextlib.redirect_stdout(io.StringIO()):
             ht.execute(so.task0(so.T0, mm), n_trials=T, mode=mode, n_workers=2)
@@ -110,6 +115,7 @@ def one_table(G, T, table, mm, order=None, mode='serial'):
         return [('execute-raises', repr(e))], None
     finally:
         pools.PLAN['order'] = None
+        pools.PLAN['lazy'] = None
     log = list(so.LOG)
     seen = {}
     for r in log:
@@ -155,12 +161,12 @@ def _work(args):
     try:
         for table in tables:
             for mm in ('min', 'max'):
-                for order in orders:
-                    finds, ht = one_table(G, T, table, mm, order)
+                for order, lazy in [(o, False) for o in orders] + [(None, True)]:
+                    finds, ht = one_table(G, T, table, mm, order, lazy=lazy)
                     n += 1
                     for what, d in finds:
                         res.setdefault(what, (d, {'part': 'table', 'G': G, 'T': T, 'table': list(table), 'mm': mm,
-                                                   'order': order}))
+                                                   'order': order, 'lazy': lazy}))
                     if sample is None and mm == 'max' and ht is not None and len(set(table)) > 2:
                         sample = {'grid_points': G, 'trials': T, 'score_table': list(table), 'direction': mm,
                                   'trial_execution_order': order, 'best_parameters': ht.best_parameters,
@@ -187,7 +193,7 @@ def run_tables(rep, shapes):
             rep.finding(f"C19|HyperTuner|{what}", d, {'kind': 'e3', 'module': 'c19', 'case': case})
     rep.part('score-tables', n, n, states=n, transitions=n, validated=n, samples=samples,
              rule=f"ALL score tables over {SCORES} for (grid points, trials) in {shapes} x min/max x every execution "
-                  "order of the trials of a grid point, through the real HyperTuner.execute + resolve on ScriptOpt "
+                  "order of the trials of a grid point and eager / lazy pickling of the work items, through the real HyperTuner.execute + resolve on ScriptOpt "
                   "with the model process pool; oracle on the call log and on best_parameters / best_score")
 
 
@@ -242,7 +248,7 @@ def replay(case):
     elif case['part'] == 'table':
         pools.install()
         try:
-            finds, _ = one_table(case['G'], case['T'], tuple(case['table']), case['mm'], case['order'])
+            finds, _ = one_table(case['G'], case['T'], tuple(case['table']), case['mm'], case['order'], lazy=case.get('lazy', False))
         finally:
             pools.uninstall()
         for what, d in finds:
